@@ -126,6 +126,17 @@ CLAIMED.update({
    design="§7 C17", technique="contract-based deductive verification (call-site clauses, per-iteration postconditions; SMT)"),
 })
 
+CLAIMED.update({
+ "C13": dict(
+   text="Proof of the MECHANISM behind locality, not of the metamorphic experiment on the example files: for the per-declaration walkers (statement, statement-list, expression, "
+        "local-expression, function-declaration) every top-level declaration of the file is examined (no early exit), a function declaration is traversed iff the visitor's EnterFunc "
+        "accepts it - exactly once and starting from that declaration's own body/node - so the work done for one declaration is decided by that declaration and the visitor alone; every "
+        "implementation of EnterFunc accepts only functions with a body; the traversal callbacks visit each matching node once and consume the one-shot SkipChilds flag after every visit; "
+        "skipChilds returns and clears the flag. Per-function scratch state is reset before use (property C03's reset-before-read obligations). The example-file clause of the property "
+        "(re-running curated positive/negative files under padding and permutation) cannot be executed by contracts and is not decided; comment walkers are not yet under contract.",
+   design="§7 C13", technique="contract-based deductive verification (interface-method contracts, per-iteration postconditions, ghost event logs; SMT)"),
+})
+
 NA_REASON_PENDING = "check not built yet in this round (planned, DESIGN §7); not claimed until its obligations discharge"
 NOT_APPLICABLE = {
  "C11": "no contract within reach can state equality of Go-regexp match behaviour between a pattern and the string printed from a third-party parse tree (DESIGN §8)",
